@@ -1,6 +1,8 @@
+import sys
 from copy import deepcopy
 from dataclasses import dataclass, fields, replace
-from typing import Type, TypeVar, Any, Union, Callable, Dict
+from types import CodeType
+from typing import Type, TypeVar, Any, Union, Callable, Dict, Tuple
 
 from pedantic.get_context import get_context
 from pedantic.type_checking_logic.check_types import assert_value_matches_type
@@ -12,6 +14,26 @@ def frozen_type_safe_dataclass(cls: Type[T]) -> Type[T]:
     """ Shortcut for @frozen_dataclass(type_safe=True) """
 
     return frozen_dataclass(type_safe=True)(cls)
+
+
+def _get_context_of_caller(instance: Any, skip: Tuple[CodeType, ...]) -> Dict[str, Any]:
+    """
+        Returns the context of the frame that requested [instance], i.e. that called the constructor, copy_with() or
+        deep_copy_with(). The frames in between are skipped, however many there are: functions that work on [instance]
+        itself (the generated __init__ and the __post_init__ methods of the class hierarchy), the functions of the
+        dataclasses module (replace) and the given code objects.
+    """
+
+    frame = sys._getframe(2)
+
+    while frame.f_back is not None and (
+            frame.f_code in skip
+            or frame.f_globals.get('__name__') == 'dataclasses'
+            or any(value is instance for value in frame.f_locals.values())
+    ):
+        frame = frame.f_back
+
+    return {**frame.f_globals, **frame.f_locals}
 
 
 def frozen_dataclass(
@@ -81,10 +103,7 @@ def frozen_dataclass(
 
             def new_post_init(self) -> None:
                 old_post_init(self)
-                context = get_context(depth=3, increase_depth_if_name_matches=[
-                    copy_with.__name__,
-                    deep_copy_with.__name__,
-                ])
+                context = _get_context_of_caller(instance=self, skip=(copy_with.__code__, deep_copy_with.__code__))
                 self.validate_types(_context=context)
 
             setattr(cls_, '__post_init__', new_post_init)  # must be done before applying dataclass()
